@@ -33,7 +33,10 @@ def run_impl(cfg):
     from pygyro.model.layout import getLayoutHandler
     nprocs, shape, lays, pairs, dtype = cfg['nprocs'], cfg['ext'], cfg['layouts'], cfg['pairs'], cfg['dtype']
     eta = lu.eta_grids(shape)
-    G = lu.global_array(shape, dtype)
+    # one handler serves fields of different element types (the distribution function is real, the potential complex): the payload
+    # type changes from one transpose to the next, starting with the configuration's own
+    k0 = DTYPES.index(dtype)
+    Gs = [lu.global_array(shape, DTYPES[(k0 + k) % 3]) for k in range(3)] if cfg.get('mixed_types', True) else [lu.global_array(shape, dtype)]
 
     def body():
         comm = MPI.COMM_WORLD
@@ -42,7 +45,8 @@ def run_impl(cfg):
         out = {'buffer': B, 'coords': [int(c) for c in h.mpiCoords], 'pairs': []}
         names = list(lays)
         out['routes'] = [[None if a == b else list(h._route_map[a][b]) for b in names] for a in names] if len(names) > 1 else None
-        for (src, dst, usebuf) in pairs:
+        for kp, (src, dst, usebuf) in enumerate(pairs):
+            G = Gs[kp % len(Gs)]
             ls, ld = h.getLayout(src), h.getLayout(dst)
             a = np.full(B, -1, dtype=G.dtype)
             b = np.full(B, -2, dtype=G.dtype)
